@@ -6,92 +6,7 @@ import (
 	"strings"
 
 	"git.sr.ht/~rockorager/vaxis"
-	"git.sr.ht/~rockorager/vaxis/ansi"
 )
-
-func untokRunes(s string) (string, bool) {
-	if s == "-" || s == "" {
-		return "", true
-	}
-	var sb strings.Builder
-	for _, p := range strings.Split(s, ".") {
-		v, err := strconv.Atoi(p)
-		if err != nil {
-			return "", false
-		}
-		sb.WriteRune(rune(v))
-	}
-	return sb.String(), true
-}
-
-func untokKey(s string) (vaxis.Key, bool) {
-	p := strings.Split(s, "/")
-	if len(p) != 6 {
-		return vaxis.Key{}, false
-	}
-	var v [5]int
-	for i := 0; i < 5; i++ {
-		x, err := strconv.Atoi(p[i])
-		if err != nil {
-			return vaxis.Key{}, false
-		}
-		v[i] = x
-	}
-	t, ok := untokRunes(p[5])
-	return vaxis.Key{Keycode: rune(v[0]), ShiftedCode: rune(v[1]), BaseLayoutCode: rune(v[2]), Modifiers: vaxis.ModifierMask(v[3]), EventType: vaxis.EventType(v[4]), Text: t}, ok
-}
-
-func untokSeq(s string) (ansi.Sequence, bool) {
-	p := strings.SplitN(s, ":", 3)
-	if len(p) < 2 {
-		return nil, false
-	}
-	switch p[0] {
-	case "P":
-		g, ok := untokRunes(p[1])
-		return ansi.Print{Grapheme: g}, ok
-	case "C0", "E", "S3":
-		v, err := strconv.Atoi(p[1])
-		if err != nil {
-			return nil, false
-		}
-		switch p[0] {
-		case "C0":
-			return ansi.C0(rune(v)), true
-		case "E":
-			return ansi.ESC{Final: rune(v)}, true
-		}
-		return ansi.SS3(rune(v)), true
-	case "CSI":
-		if len(p) != 3 {
-			return nil, false
-		}
-		f, err := strconv.Atoi(p[1])
-		if err != nil {
-			return nil, false
-		}
-		c := ansi.CSI{Final: rune(f)}
-		if p[2] == "-" {
-			return c, true
-		}
-		for _, pm := range strings.Split(p[2], "/") {
-			var sub []int
-			if pm != "-" {
-				for _, x := range strings.Split(pm, ".") {
-					v, err := strconv.Atoi(x)
-					if err != nil {
-						return nil, false
-					}
-					sub = append(sub, v)
-				}
-			}
-			c.Parameters = append(c.Parameters, sub)
-		}
-		return c, true
-	}
-	return nil, false
-}
-
 
 // replay re-runs one op (its tokens) on the real code and returns the implementation result.
 func (h *H) replay(op []string) (string, bool) {
